@@ -1,5 +1,5 @@
 #!/venv/bin/python
-"""Sweeps VERIF_SEED over the quick tier of every check (or the given ones) and derives non-vacuity minima = 40% of the smallest value
+"""Sweeps VERIF_SEED over the quick tier of every check (or the given ones) and derives non-vacuity minima = 15% of the smallest value
 observed for every key named in the module's MINIMA. Writes vf/minima.json. usage: tools/calibrate.py [--seeds 0-7] [C01 C02 ...]"""
 import importlib, json, os, subprocess, sys, tempfile
 sys.path.insert(0, "/verif")
@@ -27,7 +27,7 @@ for pid in pids:
         for k in keys:
             v = d["conds"].get(k[5:], [0, 0, 0])[1] if k.startswith("cond:") else d["distinct"] if k == "distinct" else d["counters"].get(k, 0)
             obs[k].append(v)
-    q = {k: max(1, int(0.4 * min(v))) for k, v in obs.items()}
+    q = {k: max(1, int(0.15 * min(v))) for k, v in obs.items()}
     cal[pid] = {"quick": q, "thorough": {k: v * 4 if k != "distinct" else v for k, v in q.items()}, "_observed_min_max": {k: [min(v), max(v)] for k, v in obs.items()}}
     print(pid, {k: (min(v), max(v), q[k]) for k, v in obs.items()}, flush=True)
     json.dump(cal, open(path, "w"), indent=1, sort_keys=True)
